@@ -1,4 +1,4 @@
 SPECIFICATION SpecS
 CONSTANT Tier = "thorough"
-INVARIANTS SmallLaws Poly2 KernelSE3 KernelSE23
+INVARIANTS SmallLaws Poly2 OnSwitch KernelSE3 KernelSE23
 CHECK_DEADLOCK FALSE
